@@ -8,10 +8,13 @@ import TrashVerif.Proofs.C19
 namespace TrashVerif.C19
 open TrashVerif Prog FS ReadDefs
 
-/-- trash-restore's scan of one trash directory is exactly "each name on its own". -/
+/-- trash-restore's scan of one trash directory is exactly "each name on its own".
+    RESTATED with the trash directory as spelled: since the fix of `InfoFiles.all_info_files`
+    (no `os.path.normpath` of the trash directory) the listing and the info paths are built on
+    `pjoin t "info"`; the statement formerly read `pjoin (normpath t) (b "info")` in both places. -/
 theorem restore_scan_itemwise (fs : FS) (cwd : CPath) (t v : Bytes) (ns : List Bytes)
-    (h : listdirStr fs cwd (pjoin (normpath t) (b "info")) = some ns) :
-    restoreEntriesOf fs cwd t v = ns.filterMap (restoreItem fs cwd (pjoin (normpath t) (b "info")) v) :=
+    (h : listdirStr fs cwd (pjoin t (b "info")) = some ns) :
+    restoreEntriesOf fs cwd t v = ns.filterMap (restoreItem fs cwd (pjoin t (b "info")) v) :=
   Proofs.C19.restore_scan_itemwise fs cwd t v ns h
 
 /-- Isolation for any item-wise reader: the malformed items (those that yield nothing) can be
